@@ -1,4 +1,5 @@
 import RsModel.Lemmas.Rope
+import RsModel.Lemmas.RopeSlice
 /-!
 # C16 — Rope behaves exactly like the string it represents
 `render r` is the flat string a rope stands for.
@@ -62,5 +63,127 @@ theorem c16_chunking_irrelevant (p q : RProg) (h : p.flat = q.flat) :
 /-! non-vacuity: an empty piece in the middle, a multi-piece append -/
 example : (RProg.append (.add .new [97]) (.iter [[98], [], [99]])).eval = .full [([], 0), ([97], 0), ([98], 1), ([99], 2)] := by decide
 example : (RProg.append (.add .new [97]) (.iter [[98], [], [99]])).flat = [97, 98, 99] := by decide
+
+
+/-! ## programs with slicing, and the byte observer -/
+
+/-- `str` slicing `&t[a..b]` with its three panics -/
+def strSlice (t : Text) (a b : Nat) : Except SliceErr Text :=
+  if a > b then .error .reversed
+  else if b > t.length then .error .endOOB
+  else if isBoundary t a && isBoundary t b then .ok (bsub t a b) else .error .boundary
+
+/-- construction programs with `byte_slice` at any place -/
+inductive RProgS where
+  | new | from_ (t : Text) | iter (ts : List Text) | add (p : RProgS) (t : Text) | append (a b : RProgS)
+  | slice (p : RProgS) (a b : Nat)
+
+/-- the literals are `&str`s -/
+def RProgS.TextsOK : RProgS → Prop
+  | .new => True
+  | .from_ t => pieceOK t = true
+  | .iter ts => ∀ t ∈ ts, pieceOK t = true
+  | .add p t => p.TextsOK ∧ pieceOK t = true
+  | .append a b => a.TextsOK ∧ b.TextsOK
+  | .slice p _ _ => p.TextsOK
+
+def RProgS.eval : RProgS → Except SliceErr Rope
+  | .new => .ok Rope.new
+  | .from_ t => .ok (.light t)
+  | .iter ts => .ok (Rope.fromIter ts)
+  | .add p t => p.eval.map (·.add t)
+  | .append a b => a.eval.bind fun x => b.eval.map fun y => x.append y
+  | .slice p a b => p.eval.bind fun x => x.byteSlice a b
+
+/-- the same program over plain strings -/
+def RProgS.flat : RProgS → Except SliceErr Text
+  | .new => .ok []
+  | .from_ t => .ok t
+  | .iter ts => .ok ts.flatten
+  | .add p t => p.flat.map (· ++ t)
+  | .append a b => a.flat.bind fun x => b.flat.map fun y => x ++ y
+  | .slice p a b => p.flat.bind fun x => strSlice x a b
+
+/-- `byte_slice` on a well-formed rope is `str` slicing of the flat string: same result text, same panic -/
+theorem c16_slice (r : Rope) (h : r.WF) (a b : Nat) :
+    (r.byteSlice a b).map Rope.render = strSlice r.render a b ∧ ∀ r', r.byteSlice a b = .ok r' → r'.WF := by
+  unfold strSlice
+  by_cases h1 : a > b
+  · simp [byteSlice_reversed r a b h1, h1, Except.map]
+  · by_cases h2 : b > r.render.length
+    · simp [byteSlice_endOOB r h.inv a b (by omega) h2, h1, h2, Except.map]
+    · obtain ⟨s1, s2⟩ := byteSlice_spec r h a b (by omega) (by omega)
+      simp only [h1, h2, if_false]
+      by_cases hb : (isBoundary r.render a && isBoundary r.render b) = true
+      · obtain ⟨r', e1, e2, e3⟩ := s1 hb
+        simp only [hb, if_true, e1, Except.map, e2]
+        exact ⟨trivial, fun x hx => by cases hx; exact e3⟩
+      · have hb' : (isBoundary r.render a && isBoundary r.render b) = false := by simpa using hb
+        simp [s2 hb', hb', Except.map]
+
+/-- **every program of constructors and slices behaves like the same program over strings**: it fails with the
+same panic or yields a well-formed rope that renders to the string result -/
+theorem c16_program (p : RProgS) (h : p.TextsOK) :
+    p.eval.map Rope.render = p.flat ∧ ∀ r, p.eval = .ok r → r.WF := by
+  induction p with
+  | new => exact ⟨rfl, fun r hr => by cases hr; exact wf_new⟩
+  | from_ t => exact ⟨rfl, fun r hr => by cases hr; exact h⟩
+  | iter ts => exact ⟨by simp [RProgS.eval, RProgS.flat, Except.map, render_fromIter], fun r hr => by cases hr; exact wf_fromIter ts h⟩
+  | add p t ih =>
+    obtain ⟨i1, i2⟩ := ih h.1
+    simp only [RProgS.eval, RProgS.flat]
+    cases hp : p.eval with
+    | error e =>
+      rw [hp] at i1; simp only [Except.map] at i1; rw [← i1]
+      exact ⟨rfl, fun r hr => by simp [Except.map] at hr⟩
+    | ok x =>
+      rw [hp] at i1; simp only [Except.map] at i1 ⊢
+      rw [← i1]
+      exact ⟨by simp [render_add], fun r hr => by cases hr; exact wf_add x t (i2 x hp) h.2⟩
+  | append a b iha ihb =>
+    obtain ⟨a1, a2⟩ := iha h.1
+    obtain ⟨b1, b2⟩ := ihb h.2
+    simp only [RProgS.eval, RProgS.flat]
+    cases ha : a.eval with
+    | error e =>
+      rw [ha] at a1; simp only [Except.map] at a1; rw [← a1]
+      exact ⟨rfl, fun r hr => by simp [Except.bind] at hr⟩
+    | ok x =>
+      rw [ha] at a1; simp only [Except.map] at a1; rw [← a1]
+      cases hb : b.eval with
+      | error e =>
+        rw [hb] at b1; simp only [Except.map] at b1; rw [← b1]
+        exact ⟨rfl, fun r hr => by simp [Except.bind, Except.map] at hr⟩
+      | ok y =>
+        rw [hb] at b1; simp only [Except.map] at b1; rw [← b1]
+        simp only [Except.bind, Except.map]
+        exact ⟨by simp [render_append], fun r hr => by cases hr; exact wf_append x y (a2 x ha) (b2 y hb)⟩
+  | slice p a b ih =>
+    obtain ⟨i1, i2⟩ := ih h
+    simp only [RProgS.eval, RProgS.flat]
+    cases hp : p.eval with
+    | error e =>
+      rw [hp] at i1; simp only [Except.map] at i1; rw [← i1]
+      exact ⟨rfl, fun r hr => by simp [Except.bind] at hr⟩
+    | ok x =>
+      rw [hp] at i1; simp only [Except.map] at i1; rw [← i1]
+      simp only [Except.bind]
+      exact c16_slice x (i2 x hp) a b
+
+/-- `get_byte(i)` of any such rope is the `i`-th byte of the string (no panic) -/
+theorem c16_get_byte (p : RProgS) (h : p.TextsOK) (r : Rope) (hr : p.eval = .ok r) (t : Text) (ht : p.flat = .ok t) (i : Nat) :
+    r.getByte i = .ok t[i]? := by
+  obtain ⟨e1, e2⟩ := c16_program p h
+  rw [hr, ht] at e1
+  simp only [Except.map] at e1
+  cases e1
+  exact getByte_spec r (e2 r hr).inv i
+
+/-- the hypotheses are satisfiable and slicing is exercised across pieces, inside a multi-byte char (error) and at borders -/
+example : (match (RProgS.slice (.append (.from_ [97, 0xC3, 0xA9]) (.iter [[98], [], [99, 100]])) 1 5).eval with
+      | .ok r => r.render == [0xC3, 0xA9, 98, 99] | .error _ => false) = true
+    ∧ (match (RProgS.slice (.append (.from_ [97, 0xC3, 0xA9]) (.iter [[98], [], [99, 100]])) 2 5).eval with
+      | .ok _ => false | .error e => e == .boundary) = true := by
+  decide
 
 end Rs
